@@ -26,7 +26,8 @@ import (
 )
 
 const (
-	nPayloads = 12
+	nPayloads = 320 // small histories use the first 2..12; removal/limit boundary histories use up to all of them
+	nSmall    = 12
 	nVariants = 3
 )
 
@@ -45,6 +46,7 @@ type Case struct {
 	Ops     []Op   `json:"ops,omitempty"`
 	Threads [][]Op `json:"threads,omitempty"`
 	Repeat  int    `json:"repeat,omitempty"`
+	Big     bool   `json:"big,omitempty"` // removal lists / limits around the 100-hash batch boundaries
 }
 
 // ---- transaction pool ---------------------------------------------------------
@@ -341,12 +343,55 @@ func runSeq(c *vh.Ctx, cs Case) {
 	for _, e := range dump().Queue {
 		prev[e] = true
 	}
-	var ops []string
 	nontrivial := false
 	modelOK := true
-	for _, o := range cs.Ops {
+	results := make([]result, len(cs.Ops))
+	tss := make([]uint64, len(cs.Ops))
+	// Queue timestamps are read back from the store.  Small histories look after every
+	// queue/store call; boundary histories (hundreds of entries) look once per run of
+	// queue/store/get calls, just before the next retrieval or removal: inside such a
+	// run at most one entry per transaction can appear and it belongs to the first
+	// queue call for it (any other assignment shows up as a model mismatch).
+	var waiting []int // indices of queue ops not yet matched with their entry
+	stored := false
+	resolve := func() {
+		if len(waiting) == 0 && !stored {
+			return
+		}
+		fresh := map[crypto.Hash][]uint64{}
+		for _, e := range dump().Queue {
+			if !prev[e] {
+				prev[e] = true
+				fresh[e.Hash] = append(fresh[e.Hash], e.Ts)
+			}
+		}
+		for _, k := range waiting {
+			h := poolHash[cs.Ops[k].P]
+			if t := fresh[h]; len(t) > 0 && t[0] != 0 {
+				tss[k] = t[0]
+				t[0] = 0 // taken
+				if len(t) > 1 {
+					c.Fail("queue-many-entries", "one queueing wrote several scheduling records", cs)
+				}
+			}
+		}
+		for _, t := range fresh {
+			if t[0] != 0 {
+				if stored && len(waiting) == 0 {
+					c.Fail("store-schedules", "storing a body wrote a scheduling record", cs)
+				} else {
+					c.Fail("queue-foreign-entry", "a scheduling record appeared for a transaction that was not queued", cs)
+				}
+			}
+		}
+		waiting, stored = nil, false
+	}
+	for k, o := range cs.Ops {
+		if cs.Big && (o.K == "retrieve" || o.K == "remove") {
+			resolve()
+		}
 		r := apply(o)
-		ts := uint64(0)
+		results[k] = r
 		switch o.K {
 		case "queue":
 			if r.err {
@@ -356,19 +401,9 @@ func runSeq(c *vh.Ctx, cs Case) {
 			}
 			a.queued[o.P]++
 			a.expect[o.P] = !a.planted[o.P]
-			fresh := 0
-			for _, e := range dump().Queue {
-				if !prev[e] {
-					prev[e] = true
-					ts = e.Ts
-					fresh++
-					if e.Hash != poolHash[o.P] {
-						c.Fail("queue-foreign-entry", "queueing wrote a scheduling record for another transaction", cs)
-					}
-				}
-			}
-			if fresh > 1 {
-				c.Fail("queue-many-entries", "one queueing wrote several scheduling records", cs)
+			waiting = append(waiting, k)
+			if !cs.Big {
+				resolve()
 			}
 			// queueing makes the transaction retrievable and keeps/refreshes a body for it
 			if ver, err := store.CacheGetTransaction(poolHash[o.P]); (err != nil || ver == nil) && !a.planted[o.P] {
@@ -379,11 +414,9 @@ func runSeq(c *vh.Ctx, cs Case) {
 				c.Fail("store-error", "CacheStoreTransaction failed on an uncontended store", cs)
 				modelOK = false
 			}
-			for _, e := range dump().Queue {
-				if !prev[e] {
-					c.Fail("store-schedules", "storing a body wrote a scheduling record", cs)
-					prev[e] = true
-				}
+			stored = true
+			if !cs.Big {
+				resolve()
 			}
 		case "retrieve":
 			if r.err && !a.corrupt {
@@ -406,7 +439,11 @@ func runSeq(c *vh.Ctx, cs Case) {
 			}
 		case "get":
 		}
-		ops = append(ops, "("+coqOp(o, ts)+", "+coqObs(o, r)+")")
+	}
+	resolve()
+	var ops []string
+	for k, o := range cs.Ops {
+		ops = append(ops, "("+coqOp(o, tss[k])+", "+coqObs(o, results[k])+")")
 	}
 	// every transaction queued and neither returned nor removed since must come out of a full retrieval
 	drain := Op{K: "retrieve", Limit: 1000}
@@ -450,6 +487,9 @@ func runSeq(c *vh.Ctx, cs Case) {
 	kind := "seq"
 	if len(cs.Pre) > 0 {
 		kind = "seq-raw"
+	}
+	if cs.Big {
+		kind = "seq-big"
 	}
 	c.Case(kind, canon(cs), nontrivial, cs, term)
 }
@@ -590,7 +630,7 @@ func genOp(r *vh.Rand, np int) Op {
 }
 
 func genSeq(r *vh.Rand) Case {
-	np := r.Range(2, nPayloads)
+	np := r.Range(2, nSmall)
 	cs := Case{Mode: "seq"}
 	if r.Chance(1, 4) { // raw records: orphans, duplicates, equal timestamps, undecodable bodies
 		for i, n := 0, r.Range(1, 6); i < n; i++ {
@@ -614,6 +654,122 @@ func genSeq(r *vh.Rand) Case {
 	n := r.Range(5, 60)
 	for i := 0; i < n; i++ {
 		cs.Ops = append(cs.Ops, genOp(r, np))
+	}
+	return cs
+}
+
+// Sizes around the 100-hash batches of CacheRemoveTransactions (the kernel passes
+// up to SnapshotTransactionsMaximum = 255 stale hashes in one call) and the
+// matching retrieval limits.
+var bigSizes = []int{199, 200, 201, 255, 256, 300, 301, 99, 100, 101}
+var bigLimits = []int{99, 100, 101, 199, 200, 201, 255, 256, 300, 301}
+
+// regions of a list of n elements that get probed after the removal
+func regions(n int) []int {
+	var out []int
+	for _, i := range []int{0, 1, 98, 99, 100, 101, 198, 199, 200, 201, 254, 255, 256, 299, 300, n - 2, n - 1} {
+		if i >= 0 && i < n {
+			out = append(out, i)
+		}
+	}
+	return out
+}
+
+// genBig: one removal call with n hashes (distinct payloads in random order, a
+// few duplicates), each in a random state beforehand (never written, stored
+// only, queued and pending, queued and already retrieved), followed by
+// get / re-queue / store / retrieve of elements of every region of the list.
+func genBig(r *vh.Rand, n int, uniform int) Case {
+	cs := Case{Mode: "seq", Big: true}
+	perm := make([]int, nPayloads)
+	for i := range perm {
+		perm[i] = i
+	}
+	for i := len(perm) - 1; i > 0; i-- {
+		j := r.Intn(i + 1)
+		perm[i], perm[j] = perm[j], perm[i]
+	}
+	list := append([]int{}, perm[:n]...)
+	for k, d := 0, r.Intn(4); k < d; k++ { // duplicates inside the list
+		list[r.Intn(n)] = list[r.Intn(n)]
+	}
+	// state per payload: 0 never written, 1 stored, 2 pending, 3 retrieved
+	state := map[int]int{}
+	for _, p := range list {
+		st := uniform
+		if uniform < 0 {
+			switch x := r.Intn(20); {
+			case x < 6:
+				st = 0
+			case x < 11:
+				st = 1
+			case x < 16:
+				st = 2
+			default:
+				st = 3
+			}
+		}
+		state[p] = st
+	}
+	for _, p := range list {
+		if state[p] == 3 {
+			cs.Ops = append(cs.Ops, Op{K: "queue", P: p, V: r.Intn(nVariants)})
+		}
+	}
+	if len(cs.Ops) > 0 {
+		cs.Ops = append(cs.Ops, Op{K: "retrieve", Limit: 1000})
+	}
+	for _, p := range list {
+		switch state[p] {
+		case 1:
+			cs.Ops = append(cs.Ops, Op{K: "store", P: p, V: r.Intn(nVariants)})
+		case 2:
+			cs.Ops = append(cs.Ops, Op{K: "queue", P: p, V: r.Intn(nVariants)})
+		}
+	}
+	if r.Chance(1, 3) { // a retrieval cut at a batch-sized limit before the removal
+		cs.Ops = append(cs.Ops, Op{K: "retrieve", Limit: bigLimits[r.Intn(len(bigLimits))]})
+	}
+	cs.Ops = append(cs.Ops, Op{K: "remove", Hs: list})
+	probes := regions(n)
+	for k := 0; k < 4; k++ {
+		probes = append(probes, r.Intn(n))
+	}
+	for _, i := range probes {
+		cs.Ops = append(cs.Ops, Op{K: "get", P: list[i]})
+	}
+	for _, i := range probes {
+		switch r.Intn(4) {
+		case 0, 1:
+			cs.Ops = append(cs.Ops, Op{K: "queue", P: list[i], V: r.Intn(nVariants)})
+		case 2:
+			cs.Ops = append(cs.Ops, Op{K: "store", P: list[i], V: r.Intn(nVariants)})
+		}
+	}
+	cs.Ops = append(cs.Ops, Op{K: "retrieve", Limit: bigLimits[r.Intn(len(bigLimits))]})
+	for _, i := range probes[:6] {
+		cs.Ops = append(cs.Ops, Op{K: "get", P: list[i]})
+	}
+	return cs
+}
+
+// genLimits: a queue of 90..320 entries consumed by retrievals whose limits sit
+// on and around the multiples of 100, with re-queueing in between.
+func genLimits(r *vh.Rand) Case {
+	cs := Case{Mode: "seq", Big: true}
+	n := []int{99, 100, 101, 200, 201, 256, 300, 301, 320}[r.Intn(9)]
+	for p := 0; p < n; p++ {
+		cs.Ops = append(cs.Ops, Op{K: "queue", P: p, V: r.Intn(nVariants)})
+		if r.Chance(1, 15) {
+			cs.Ops = append(cs.Ops, Op{K: "store", P: r.Intn(nPayloads), V: r.Intn(nVariants)})
+		}
+	}
+	for k, m := 0, r.Range(2, 4); k < m; k++ {
+		cs.Ops = append(cs.Ops, Op{K: "retrieve", Limit: bigLimits[r.Intn(len(bigLimits))]})
+		for j := 0; j < 5; j++ {
+			p := r.Intn(n)
+			cs.Ops = append(cs.Ops, Op{K: "get", P: p}, Op{K: "queue", P: p, V: r.Intn(nVariants)})
+		}
 	}
 	return cs
 }
@@ -643,7 +799,7 @@ func corpus() []Case {
 	g := func(p int) Op { return Op{K: "get", P: p} }
 	many := make([]int, 205) // crosses the 100-hash removal batches
 	for i := range many {
-		many[i] = i % nPayloads
+		many[i] = i % nSmall
 	}
 	return []Case{
 		{Mode: "seq", Ops: []Op{s(0, 0), rt(1), g(0)}},                                   // store only: never retrieved
@@ -669,11 +825,25 @@ func corpus() []Case {
 	}
 }
 
+// one removal call of every boundary size, all elements pending resp. retrieved
+func corpusBig() []Case {
+	r := vh.NewRand(23, "C23-corpus-big")
+	var out []Case
+	for k, n := range bigSizes[:7] {
+		out = append(out, genBig(r, n, 2+k%2))
+	}
+	out = append(out, genBig(r, 255, 1), genLimits(r))
+	return out
+}
+
 func main() {
 	c := vh.Start("C23")
 	c.Rep.Rule = "corpus (store-only, dedup, re-queue, removal with stale record, limit cuts, batches >100, orphan/undecodable raw records, " +
-		"equal timestamps), then random sequential histories of 5..60 operations over 2..12 payloads x 3 differently signed bodies " +
-		"(1/4 start from raw records) each ending with a full retrieval, and concurrent histories of 8 goroutines x 4..12 operations " +
+		"equal timestamps; one removal call of 199/200/201/255/256/300/301 hashes with every element pending, retrieved or stored, " +
+		"probed at first, 98..101, 198..201, 254..256, 299/300 and last), then random sequential histories of 5..60 operations over 2..12 payloads x 3 differently signed bodies " +
+		"(1/4 start from raw records) each ending with a full retrieval, interleaved (1 per 19, thorough 1 per 33) with boundary histories over up to 320 payloads " +
+		"(removal lists of 99..301 hashes mixing never-written/stored/pending/retrieved elements and duplicates, then get/re-queue/store/retrieve in every " +
+		"region; queues of 99..320 entries consumed with limits 99..301), and concurrent histories of 8 goroutines x 4..12 operations " +
 		"(oracle only). Non-trivial = some retrieval returned a transaction; distinct by the operation sequence."
 	buildPool()
 	closeStore := openStore()
@@ -696,11 +866,26 @@ func main() {
 	for _, cs := range corpus() {
 		run(c, cs)
 	}
+	for _, cs := range corpusBig() {
+		run(c, cs)
+	}
+	every := 19 // one boundary history per `every` small ones, interleaved so that no case shard gets heavy
+	if c.Tier == "thorough" {
+		every = 33
+	}
+	rb := c.Rng.Fork("big")
 	nseq := c.Scale(300, 10000)
 	nconc := c.Scale(40, 1500)
 	rs := c.Rng.Fork("seq")
 	for i := 0; i < nseq; i++ {
 		run(c, genSeq(rs))
+		if i%every == 7 {
+			if rb.Chance(1, 5) {
+				run(c, genLimits(rb))
+			} else {
+				run(c, genBig(rb, bigSizes[rb.Intn(len(bigSizes))], -1))
+			}
+		}
 		fresh(i)
 	}
 	rc := c.Rng.Fork("conc")
